@@ -129,7 +129,8 @@ func (k Keeper) PlaceDutchAuctionBid(ctx sdk.Context, auctionID uint64, bidder s
 			//Send debt to the initiator address of the auction
 			finalDebtToInitiator := liquidationData.TargetDebt.Sub(liquidationPenalty)
 			keeperIncentive := (liquidationWhitelistingAppData.KeeeperIncentive.Mul(sdk.NewDecFromInt(liquidationPenalty.Amount))).TruncateInt()
-			if keeperIncentive.GT(sdk.ZeroInt()) {
+			// as for vaults, the incentive goes to an internal keeper only if one started the liquidation
+			if liquidationData.IsInternalKeeper && keeperIncentive.GT(sdk.ZeroInt()) {
 				liquidationPenalty = liquidationPenalty.Sub(sdk.NewCoin(auctionData.DebtToken.Denom, keeperIncentive))
 				addr, _ := sdk.AccAddressFromBech32(liquidationData.InternalKeeperAddress)
 				err = k.bankKeeper.SendCoinsFromModuleToAccount(ctx, auctionsV2types.ModuleName, addr, sdk.NewCoins(sdk.NewCoin(auctionData.DebtToken.Denom, keeperIncentive)))
